@@ -156,3 +156,4 @@ def t_alias_setdict():
     d = {"a": 1}; e = d
     e |= {"b": 2}
     return sorted(s), s is t, sorted(d.items()), d is e
+def t_bit_length(): return (0).bit_length(), (1).bit_length(), (255).bit_length(), (256).bit_length(), (-5).bit_length(), ((0).bit_length() + 3) // 4, ((4096).bit_length() + 3) // 4
